@@ -121,6 +121,9 @@ func (s RNS) Events(env world.Env, mm mc.Model) []string {
 			add("Buy:%s:%s", x, n)
 			add("Bid:%s:%s:5ujkl", x, n)
 			add("Bid:%s:%s:7ujkl", x, n)
+			if s.Prop == "C08" && x == "B" {
+				add("Bid:%s:%s:5uatom", x, n) // a bid in another denomination than registrations are paid in
+			}
 			if s.Prop == "C09" {
 				add("Bid:%s:%s:5uatom", x, n)
 				add("BidFail:%s:%s:7ujkl", x, n) // one transaction: this bid, then a message that fails
@@ -134,6 +137,7 @@ func (s RNS) Events(env world.Env, mm mc.Model) []string {
 				add("Accept:%s:%s:%s", x, n, y)
 				add("Transfer:%s:%s:%s", x, n, y)
 			}
+			add("Accept:%s:%s:%s", x, n, x) // its own bid (placed before it came to own the name)
 			if s.Prop == "C08" {
 				add("Update:%s:%s", x, n)
 				add("AddRecord:%s:%s", x, n)
